@@ -174,15 +174,32 @@ def tie_shape(st):
     return z3.Or(cs) if cs else z3.BoolVal(False)
 
 
+def literal_sets(st):
+    pos, neg = set(), set()
+    for c in st.pc:
+        if z3.is_not(c):
+            neg.add(c.arg(0).get_id())
+        else:
+            pos.add(c.get_id())
+    return pos, neg
+
+
 pairs = 0
+ref_lits = [literal_sets(fa) for fa in ref_states]
+ref_views = [view_of(fa) for fa in ref_states]
 for sch in schedules[1:]:
     finals = run_schedule(init, sch)
-    for fa in ref_states:
-        va = view_of(fa)
-        for fb in finals:
+    fin_lits = [literal_sets(fb) for fb in finals]
+    for ia, fa in enumerate(ref_states):
+        va = ref_views[ia]
+        pa, na = ref_lits[ia]
+        for ib, fb in enumerate(finals):
             # joint path condition: both runs start from the same symbolic pre-state
             if not same_shape(fa, fb):
                 continue
+            pb, nb = fin_lits[ib]
+            if (pa & nb) or (na & pb):
+                continue          # syntactically contradictory branch decisions: cannot be the same input
             pc = fa.pc + [c for c in fb.pc[len(init.pc):]]
             if ex.solver.check(pc) != z3.sat:
                 continue
